@@ -6,6 +6,7 @@ import (
 	"sync"
 
 	"github.com/ohler55/slip"
+	"github.com/ohler55/slip/pkg/cl"
 )
 
 func init() {
@@ -72,6 +73,10 @@ func (f *WithMutexLock) Call(s *slip.Scope, args slip.List, depth int) (result s
 	forms := args[1:]
 	for i := range forms {
 		result = slip.EvalArg(s, forms, i, d2)
+		switch result.(type) {
+		case *slip.ReturnResult, *cl.GoTo:
+			return result
+		}
 	}
 	return
 }
